@@ -164,7 +164,17 @@ def r2(db, rep, disp):
     f = SEM + "cc_condition"
     hb = db.hir.get(f)
     rep.anchor(hb is not None, "Semantics::cc_condition")
-    binds = [b for n in walk(hb["body"]) if n.get("k") == "LetExpr" for b in pat_bindings(n["pat"]) if b[0] == "instruction_id"]
+    m0 = [n for n in walk(hb["body"]) if n.get("k") == "Match" and n.get("src") == "Normal"]
+    # the decoded mnemonic: the binding (if-let, let-else or plain let) that the one mnemonic match scrutinises
+    scr_hid = None
+    if len(m0) == 1:
+        sc = m0[0]["scrut"]
+        while sc.get("k") in ("AddrOf", "Unary", "Cast", "DropTemps", "Paren") and "e" in sc:
+            sc = sc["e"]
+        if sc.get("k") == "Path" and "hid" in sc.get("res", {}):
+            scr_hid = sc["res"]["hid"]
+    from db import all_patterns
+    binds = [b for pt in all_patterns(hb["body"]) for b in pat_bindings(pt) if b[1] == scr_hid]
     m = [n for n in walk(hb["body"]) if n.get("k") == "Match" and n.get("src") == "Normal"]
     rep.anchor(bool(binds) and len(m) == 1, "cc_condition: instruction_id binding and its match")
     hid = binds[0][1]
